@@ -254,7 +254,7 @@ func runHarness(prog *ssa.Program, fn *ssa.Function, hs HarnessSpec, hr *Harness
 	e := &Exec{prog: prog, sol: sol, symSeen: map[string]bool{}, seenFind: map[string]bool{}, executed: map[string]int{},
 		stubs: map[string]*ssa.Function{}, maxLoop: 70, reached: map[string]bool{}, trace: os.Getenv("TRACE") != "",
 		params: hs.Params, known: hs.Known, knownHit: map[string]bool{}, oblMsgs: map[string]bool{},
-		maxPaths: hs.MaxPaths, nSamples: hs.Samples, makeSliceMax: 8}
+		maxPaths: hs.MaxPaths, nSamples: hs.Samples, makeSliceMax: 8, builtinStubs: map[string]string{}}
 	e.injectFailures = hs.InjectFailures
 	if hs.MakeSliceMax > 0 {
 		e.makeSliceMax = hs.MakeSliceMax
@@ -268,6 +268,10 @@ func runHarness(prog *ssa.Program, fn *ssa.Function, hs HarnessSpec, hr *Harness
 		if fnByName(from) == nil {
 			hr.Status, hr.Inconclusive = "inconclusive", "stub source not found (encoding drift): "+from
 			return
+		}
+		if strings.HasPrefix(to, "@") {
+			e.builtinStubs[from] = to
+			continue
 		}
 		t := fnByName(to)
 		if t == nil {
